@@ -104,8 +104,9 @@ def shapes(tier):
     # modules in which EVERY definition is unsupported (alone and next to a healthy module): nothing is generated for
     # them, so each definition must be the subject of a warning
     allbad = [('real',), ('videotex',), ('time',), ('inverted',), ('real', 'videotex'), ('setof-real', 'time'), ('real', 'inverted'), ('macro',), ('choice-real', 'real', 'videotex')]
+    allbad += [('inverted', 'inverted'), ('inverted', 'inverted', 'inverted')]
     if tier == 'quick':
-        allbad = allbad[:2] + allbad[4:7] + allbad[8:]
+        allbad = allbad[:2] + allbad[3:7] + allbad[8:]
     for ks in allbad:
         nms = ['Aa', 'Bb', 'Dd'][:len(ks)]
         defs = [BAD[kd].format(n=nm, N=nm.upper()) for nm, kd in zip(nms, ks)]
